@@ -167,7 +167,7 @@ def routing_probes(spec, m, rng):
             pfx = instantiate(b["prefix"], k)
             k += 1
             host = host_for(b["domain"], k)
-            for p in (pfx, pfx + "/zz%d" % k, pfx + "/zz/yy"):
+            for p in (pfx, pfx + "/", pfx + "/zz%d" % k, pfx + "/zz/yy"):
                 out.append({"kind": "probe", "method": rng.choice(["GET", "POST"]), "path": p, "host": host, "fail": [], "early": []})
     out += host_probes(spec, m, rng)
     out.append({"kind": "probe", "method": "GET", "path": "/zz-unknown", "host": "verif.test", "fail": [], "early": []})
